@@ -4,6 +4,7 @@ package main
 import (
 	"context"
 	"fmt"
+	"github.com/spf13/viper"
 	"os"
 	"regexp"
 	"sort"
@@ -48,7 +49,7 @@ func anyMatch(pats []string, s string) bool {
 
 type fspec struct {
 	Match, Exclude, MatchTags, DropTags []string
-	DropMetric, DropHost               bool
+	DropMetric, DropHost                bool
 }
 
 func (f fspec) real() statsd.Filter {
@@ -164,14 +165,43 @@ type tcase struct {
 	Series  []sdesc
 }
 
-func check(c tcase) {
-	res.Evaluations++
-	rec := &fx.Recorder{}
-	var fl []statsd.Filter
-	for _, f := range c.Filters {
-		fl = append(fl, f.real())
+// newStage builds the tag stage the way the server does: from the configuration keys (filters,
+// filter.<name>.match-metrics / exclude-metrics / match-tags / drop-tags / drop-metric / drop-host).
+func newStage(filters []fspec, static []string, rec *fx.Recorder) *statsd.TagHandler {
+	v := viper.New()
+	var names []string
+	fm := map[string]any{}
+	for i, f := range filters {
+		n := fmt.Sprintf("f%d", i)
+		names = append(names, n)
+		m := map[string]any{"drop-metric": f.DropMetric, "drop-host": f.DropHost}
+		if f.Match != nil {
+			m["match-metrics"] = f.Match
+		}
+		if f.Exclude != nil {
+			m["exclude-metrics"] = f.Exclude
+		}
+		if f.MatchTags != nil {
+			m["match-tags"] = f.MatchTags
+		}
+		if f.DropTags != nil {
+			m["drop-tags"] = f.DropTags
+		}
+		fm[n] = m
 	}
-	th := statsd.NewTagHandler(rec, append(gostatsd.Tags{}, c.Static...), fl)
+	v.Set("filters", names)
+	v.Set("filter", fm)
+	return statsd.NewTagHandlerFromViper(v, rec, append(gostatsd.Tags{}, static...))
+}
+
+func check(c tcase) {
+	rec := &fx.Recorder{}
+	checkWith(newStage(c.Filters, c.Static, rec), rec, c)
+}
+
+func checkWith(th *statsd.TagHandler, rec *fx.Recorder, c tcase) {
+	res.Evaluations++
+	rec.Reset()
 	th.DispatchMetricMap(context.Background(), build(c.Series))
 	want := mapref.Agg{}
 	interesting := false
@@ -363,8 +393,10 @@ func main() {
 			return
 		}
 		for _, st := range statics {
+			rec := &fx.Recorder{}
+			th := newStage(fl, st, rec) // the stage keeps no state between batches
 			for _, ss := range fam {
-				check(tcase{fl, st, ss})
+				checkWith(th, rec, tcase{fl, st, ss})
 			}
 		}
 	}
